@@ -205,7 +205,7 @@ fn spec_command_from_state(s: State) -> (u8, f32) {
     }
 }
 
-//@ob fn="<Command as From<State>>::from" at=src/command.rs:55 prop=C14,C06 clause="for every state (incl. -0.0, inf, NaN): acceleration != 0.0 => Acceleration(a); else velocity != 0.0 => Velocity(v); else Position(p); value bit-identical to the field; -0.0 counts as zero; a NaN acceleration (NaN != 0.0) yields Acceleration(NaN), zero acceleration with NaN velocity yields Velocity(NaN)"
+//@ob fn="<Command as From<State>>::from" at=src/command.rs:55 prop=C14,C06,C07 clause="for every state (incl. -0.0, inf, NaN): acceleration != 0.0 => Acceleration(a); else velocity != 0.0 => Velocity(v); else Position(p); value bit-identical to the field; -0.0 counts as zero; a NaN acceleration (NaN != 0.0) yields Acceleration(NaN), zero acceleration with NaN velocity yields Velocity(NaN)"
 #[kani::proof]
 fn c14_command_from_state() {
     let s: State = kani::any();
